@@ -151,6 +151,7 @@ type RunCfg struct {
 	PoolDropPct  int `json:"pool_drop_pct"`
 	FPYieldPct   int `json:"fp_yield_pct"`
 	ClockVaryPct int `json:"clock_vary_pct,omitempty"`
+	CPUVary      bool `json:"cpu_vary,omitempty"`
 }
 
 // World is the complete workload of one run.
